@@ -7,12 +7,13 @@ Block format (floats as 64-bit hex patterns):
   L <hex>
   edges <l> <r> <parent> <child> ...        (4 tokens per edge)
   ins <edge ids>      rem <edge ids>         (tskit's insertion / removal index)
-  count:  sb <0|1>   sample <0|1>...   mnode <node ids>   mpos <hex>...
+  count:  sb <0|1>   sample <0|1>...   mnode <node ids>   mpos <hex>...   ntime <hex>... (nodes_time)
   unary:  n <num_nodes>   mask <0|1>...
   end
 Replies (one line):
-  <id> count <valid><noOverlap><nodesOk><mutsOk> | <mutations_edge, -1 = NULL> | <edges_mutations hex> |
-       <edges_span hex> | <specEdge per mutation> | <nodes_samples hex>
+  <id> count <valid><noOverlap><nodesOk><mutsOk><timesOk> | <mutations_edge, -1 = NULL> |
+       <edges_mutations hex> | <edges_span hex> | <specEdge per mutation> | <nodes_samples hex> |
+       <samplesBelow at each mutation (the specified size-biased weight)>
   <id> unary <valid><nodesOk> <containsUnary 0|1> <hasLocallyUnary 0|1>
   <id> bad-op      (unparsable, sweep out of fuel, or the walk towards the root failed)
 -/
@@ -53,15 +54,19 @@ def runCount (id : String) (blk : List (List String)) (T : Tables Float) : Optio
   let sample ← parseBools (← field blk "sample")
   let mnode ← mapAll String.toNat? (← field blk "mnode")
   let mpos ← mapAll hexToFloat (← field blk "mpos")
+  let ntime ← mapAll hexToFloat (← field blk "ntime")
   let M : CountMut.Muts Float := { node := mnode.toArray, pos := mpos.toArray }
   let n := sample.length
   let flags := b2s (validB T) ++ b2s (noOverlapB T) ++ b2s (nodesBelowB T n) ++ b2s (CountMut.mutsOkB M n)
+    ++ b2s (CountMut.timesOkB T ntime.toArray && ntime.length == n)
   let out ← CountMut.countMutations T M sample.toArray sb
   if out.err then none
   let spec := (List.range mnode.length).map (fun m => on2s (CountMut.specEdge T M m))
+  let specW := (List.range mnode.length).map (fun m =>
+    toString (CountMut.samplesBelow T sample.toArray (aget M.pos m) (aget M.node m)))
   pure (id ++ " count " ++ flags ++ " | " ++ join (out.mutEdge.toList.map on2s) ++ " | "
     ++ join (out.edgeMuts.toList.map floatToHex) ++ " | " ++ join (out.edgeSpan.toList.map floatToHex)
-    ++ " | " ++ join spec ++ " | " ++ join (out.nodeSamples.toList.map floatToHex))
+    ++ " | " ++ join spec ++ " | " ++ join (out.nodeSamples.toList.map floatToHex) ++ " | " ++ join specW)
 
 def runUnary (id : String) (blk : List (List String)) (T : Tables Float) : Option String := do
   let n ← (← (← field blk "n").head?).toNat?
